@@ -20,13 +20,13 @@ EXPLANATION = (
     "bound and every constraint not flagged unsatisfiable has slack >= -1e-10 - 1e-9."
 )
 BOUNDS = {
-    "quick": dict(variables="1..3 (+ 4 on a chain/diamond)", value_box="desired positions in [-1000,1000], gaps in [0,100]", weights="patterns over {0.01,1,7,1e10}; on 4-variable trees also (10,1,1,2), (1e10,1,1,1), (1,1,1e10,1), (2,1,10,1)", scales="patterns over {0.5,1,4}", decisions_per_path=4000),
-    "thorough": dict(variables="1..4 (all 64 forward-edge subsets for n=4 with unit weights, 16 with mixed)", value_box="as quick"),
+    "quick": dict(variables="1..3, 4 (chains, trees, diamond, K2,2), 5 (diamond with a tail)", value_box="desired positions in [-1000,1000], gaps in [0,100]", weights="patterns over {0.01,1,7,1e10}; on 4-variable trees also (10,1,1,2), (1e10,1,1,1), (1,1,1e10,1), (2,1,10,1)", scales="patterns over {0.5,1,4}", decisions_per_path=4000),
+    "thorough": dict(variables="1..4 (all 64 forward-edge subsets for n=4 with unit weights), 5 on graphs with undirected cycles (stationary-exit reading)", value_box="as quick"),
 }
 OUTSIDE = ["more than 4 variables", "weights mixing 1e10 and 0.01 on 4-variable graphs with undirected cycles (inconclusive: the over-approximated cost loop does not converge in exact arithmetic)", "symbolic weights / scales", "equality constraints (unused by labella)", "IEEE rounding", "cost optimality is asserted through position closeness inside the value box, not as a cost inequality (quadratic)"]
 ASSUMPTIONS = [
     "floats as exact reals",
-    "Solver.solve's loop test on the quadratic cost is over-approximated (both outcomes explored)",
+    "Solver.solve's loop test on the quadratic cost is over-approximated (both outcomes explored); in the '-stationary' configurations (4-variable cycles with mixed weights, 5 variables) it is instead read as 'continue unless the cost polynomial is unchanged'",
     "KKT characterises the unique optimum of a strictly convex QP (positive weights)",
 ]
 
@@ -92,6 +92,25 @@ def configs(tier):
         for es in [[(0, 1), (1, 2), (2, 3)], [(0, 1), (2, 3)], [(0, 3), (1, 3), (2, 3)], [(0, 1), (0, 2), (0, 3)], [(0, 2), (1, 2), (2, 3)], [(0, 1), (1, 2), (1, 3)], [(0, 1), (0, 2), (2, 3)], [(0, 2), (1, 3)]]:
             for sp in [(0.5, 1, 4, 1), (4, 0.5, 1, 4), (1, 4, 0.5, 0.5), (4, 1, 1, 0.5), (4, 4, 1, 0.5), (0.5, 4, 4, 1)]:
                 out.append(mk(4, es, WPATS[4][0], sp))
+    # graphs with undirected cycles and mixed weights / more variables: decided under the STATIONARY-EXIT reading of solve()'s
+    # loop test (it is taken as "continue" whenever the cost polynomial changed; inputs on which the real loop stops because the
+    # cost moved by < 1e-4 although positions still changed are outside the claim for these configurations)
+    def st(n, es, w, tag, shards=1):
+        d = mk(n, es, w, (1,) * n, "-stationary" + tag)
+        d.update(policy="stationary", shards=shards, weight=200 * n)
+        return d
+
+    k22 = [(0, 2), (0, 3), (1, 2), (1, 3)]
+    dia = [(0, 1), (0, 2), (1, 3), (2, 3)]
+    k22b = [(1, 2), (1, 3), (0, 2), (0, 3)]  # the same graph, constraints listed in another order (merge order follows the list)
+    for wp in [(10, 1, 1, 2), (2, 1, 10, 1), (1, 7, 1, 1), (1, 1, 1, 10), (1, 2, 10, 1), (2, 1, 1, 10)]:
+        out.append(st(4, k22, wp, ""))
+        out.append(st(4, k22b, wp, "-order2"))
+        out.append(st(4, dia, wp, ""))
+    out.append(st(5, [(0, 1), (0, 2), (1, 3), (2, 3), (3, 4)], (1,) * 5, "", shards=8))
+    if tier != "quick":
+        out.append(st(5, [(0, 1), (0, 2), (1, 3), (2, 3), (0, 4), (4, 3)], (1,) * 5, "", shards=16))
+        # (6 variables / 7 separations with two undirected cycles was measured beyond 16 minutes on 16 cores: not registered)
     # cycles
     for es, n in [([(0, 1), (1, 0)], 2), ([(0, 1), (1, 2), (2, 0)], 3), ([(0, 1), (1, 2), (2, 0), (0, 2)], 3), ([(0, 1), (1, 0), (1, 2)], 3)]:
         d = mk(n, es, WPATS[n][0], SPATS[n][0], "-cyc")
@@ -180,6 +199,8 @@ def assert_all(sink, cfg, vs, cs, d, g, ret, num):
 def run(e, cfg):
     from labella import vpsc
 
+    if cfg.get("policy"):
+        e.nl_policy = cfg["policy"]
     vs, cs, d, g = build(cfg, lambda name, lo, hi: e.real(name, lo, hi))
     ret = vpsc.Solver(vs, cs).solve()
     assert_all(props.SymSink(e), cfg, vs, cs, d, g, ret, lambda v: v)
